@@ -158,7 +158,7 @@ func VerifC01Serial() { vserial(-1, -1, 5) }
 
 // C01 quick slice 1: both transactions scan a range and then insert a row (phantoms, write skew).
 //
-//symgo:harness prop=C01 tier=quick shards=16 timeout=600 bounds=1_committed_row;2_concurrent_transactions_each_(range_scan_then_output);4_interleavings;1-byte_values
+//symgo:harness prop=C01 tier=quick shards=16 timeout=600 bounds=1_committed_row;2_concurrent_transactions_each_(scan_of_[lo,0xff)_with_arbitrary_lo,_then_output);4_interleavings;1-byte_values_(thorough:_arbitrary_hi)
 func VerifC01ScanInsert() { vserial(0, 0, 4) }
 
 // C01 quick slice 2: both transactions do a keyed lookup (hit or miss) and then move the
@@ -202,7 +202,10 @@ func vserial(readSel, writeSel, nsched int) {
 			rt.Assume(x[i].a != r0.a) // a real change (write-free transactions are serialised at their snapshot)
 		}
 		if x[i].readKind == 0 {
-			x[i].lo, x[i].hi = rt.Str("lo"+n, 1), rt.Str("hi"+n, 1)
+			x[i].lo, x[i].hi = rt.Str("lo"+n, 1), "\xff"
+			if rt.Thorough() {
+				x[i].hi = rt.Str("hi"+n, 1)
+			}
 			rt.Assume(x[i].lo < x[i].hi)
 		} else {
 			x[i].k = rt.Str("k"+n, 1)
